@@ -79,6 +79,7 @@ http://www.theneitherworld.com/mcpoodle/SCC_TOOLS/DOCS/SCC_FORMAT.HTML
 """
 
 import math
+import os
 import re
 import textwrap
 from collections import defaultdict, deque
@@ -115,6 +116,30 @@ from .specialized_collections import (
     TimingCorrectingCaptionList,
 )
 from .state_machines import DefaultProvidingPositionTracker
+
+
+# Verification hook, off unless PYCAPTION_VERIF is set in the environment when this
+# module is imported: SCCReader then appends one record per consumed line / word /
+# end of read() to _VERIF_LOG (the reader's control state after the step, nothing
+# else changes).  Used by /verif to validate executions against spec/SccReader.tla.
+_VERIF_LOG = [] if os.environ.get("PYCAPTION_VERIF") else None
+
+
+def _verif_emit(reader, kind, word="", skipped=False):
+    if _VERIF_LOG is None:
+        return
+    buffers = reader.buffer_dict
+    tt = reader.time_translator
+    _VERIF_LOG.append({
+        "k": kind, "w": word, "skipped": skipped,
+        "mode": buffers.active_key if isinstance(buffers.active_key, str) else "",
+        "empty": {key: buffers[key].is_empty() for key in ("pop", "roll", "paint")},
+        "q": [cue.start for cue in reader.pop_ons_queue],
+        "stash": [(c.start, c.end) for c in reader.caption_stash._collection],
+        "time": reader.time, "label": tt._time, "frames": tt._frames,
+        "last": reader.last_command, "dstart": reader.double_starter,
+        "rows": reader.roll_rows_expected,
+    })
 
 
 class NodeCreatorFactory:
@@ -243,10 +268,12 @@ class SCCReader(BaseReader):
         lines = content.splitlines()
 
         # loop through each line except the first
+        _verif_emit(self, "begin")
         for line in lines[1:]:
             self._translate_line(line)
 
         self._flush_implicit_buffers(self.buffer_dict.active_key)
+        _verif_emit(self, "end")
 
         captions = CaptionSet({lang: self.caption_stash.get_all()})
 
@@ -326,6 +353,7 @@ class SCCReader(BaseReader):
         parts = r.findall(line.lower())
 
         self.time_translator.start_at(parts[0][0])
+        _verif_emit(self, "line")
         word_list = parts[0][2].split(" ")
 
         for idx, word in enumerate(word_list):
@@ -338,6 +366,7 @@ class SCCReader(BaseReader):
         if self._handle_double_command(word):
             # count frames for timing
             self.time_translator.increment_frames()
+            _verif_emit(self, "word", word, True)
             return
         # first check if word is a command
         # TODO - check that all the positioning commands are here, or use
@@ -358,6 +387,7 @@ class SCCReader(BaseReader):
 
         # count frames for timing only after processing a command
         self.time_translator.increment_frames()
+        _verif_emit(self, "word", word)
 
     def _handle_double_command(self, word):
         # If the caption is to be broadcast, each of the commands are doubled
